@@ -227,6 +227,26 @@ def _posterior(case, ctx, g):
     for pol, lst in results.items():
         for m2, c2 in lst[1:]:
             ctx.close("order_independent", torch.cat([m2.reshape(-1), c2.reshape(-1)]), torch.cat([lst[0][0].reshape(-1), lst[0][1].reshape(-1)]), (1e-9, 1e-9), cls="order:" + pol)
+    # a fantasy model created under the policy conditions on the OBSERVED data plus the fantasy data (also when the fantasy
+    # targets themselves miss an entry)
+    if case["model"] == "single" and case.get("lik") == "gauss" and bool(miss.any()):
+        pol = case["order"][-1]
+        Xf, yf = util.randn(g, 3, 2), util.randn(g, 3)
+        try:
+            with S.observation_nan_policy(pol), S.fast_pred_var(case["fast_pred_var"]), torch.no_grad():
+                fm = model.get_fantasy_model(Xf, yf)
+                of = fm(xs)
+            obs = ~miss
+            Xa, ya = torch.cat([X[obs], Xf]), torch.cat([y[obs], yf])
+            Kxx, Ksx, Kss, mx, ms = util.prior_pieces(model, Xa, xs)
+            rm, rc, _, _ = util.dense_conditional(Kxx, Ksx, Kss, mx, ms, lik.noise.detach() * torch.eye(Xa.shape[0]), ya)
+            ctx.expect("no_nan_leaves", bool(torch.isfinite(of.mean).all() and torch.isfinite(of.covariance_matrix).all()), f"NaN in a fantasy posterior under policy {pol}", where="fantasy")
+            ctx.close("posterior_mean", of.mean, rm, "direct", cls=f"fantasy:{pol}:mean", policy=pol, quantity="mean", fantasy=True)
+            ctx.close("posterior_covar", of.covariance_matrix, rc, "loose" if case["fast_pred_var"] else "direct", cls=f"fantasy:{pol}:covar", policy=pol, quantity="covar", fantasy=True)
+        except NotImplementedError:
+            ctx.reject("fantasy under a NaN policy not implemented")
+        except Exception as e:
+            ctx.fail("call_raised", f"get_fantasy_model under policy {pol} raised {type(e).__name__}: {str(e)[:150]}", "raise", exc=type(e).__name__, policy=pol, fantasy=True)
     # the same model next gets targets with the SAME observed values but another pattern of missing entries (targets-only
     # set_train_data, default strictness): its predictions follow the new pattern
     if not mt and case["pattern"] != "none":
